@@ -134,7 +134,7 @@ func (apr *ActivePushReplicator) registerCheckpointerCallbacks(c *activeReplicat
 		return err
 	}
 
-	blipSyncContextCollection.sgr2PushAlreadyKnownSeqsCallback = c.Checkpointer.AddAlreadyKnownSeq
+	blipSyncContextCollection.sgr2PushAlreadyKnownSeqsCallback = c.Checkpointer.MarkExpectedSeqsAlreadyKnown
 	blipSyncContextCollection.sgr2PushAddExpectedSeqsCallback = c.Checkpointer.AddExpectedSeqs
 	blipSyncContextCollection.sgr2PushProcessedSeqCallback = c.Checkpointer.AddProcessedSeq
 
